@@ -1,38 +1,294 @@
 mod api;
+mod gen;
+mod monitors;
 mod run;
 mod sched;
 
 use api::*;
 use run::*;
 use sched::*;
+use std::collections::{BTreeMap, HashMap};
+use std::io::Write;
+
+fn parse_ops(s: &str) -> Vec<Op> {
+    // split on ';' at bracket depth 0
+    let mut out = Vec::new();
+    let mut depth = 0;
+    let mut cur = String::new();
+    for ch in s.chars() {
+        match ch {
+            '[' => {
+                depth += 1;
+                cur.push(ch)
+            }
+            ']' => {
+                depth -= 1;
+                cur.push(ch)
+            }
+            ';' if depth == 0 => {
+                if !cur.trim().is_empty() {
+                    out.push(parse_op(cur.trim()));
+                }
+                cur.clear();
+            }
+            _ => cur.push(ch),
+        }
+    }
+    if !cur.trim().is_empty() {
+        out.push(parse_op(cur.trim()));
+    }
+    out
+}
+
+fn parse_op(s: &str) -> Op {
+    let s = s.trim();
+    if let Some(rest) = s.strip_prefix("spawn ") {
+        // spawn [a,b] [ops]
+        let close = rest.find(']').unwrap();
+        let hs: Vec<usize> = rest[1..close].split(',').filter(|x| !x.is_empty()).map(|x| x.trim().parse().unwrap()).collect();
+        let rest2 = rest[close + 1..].trim();
+        let inner = &rest2[1..rest2.len() - 1];
+        return Op::Spawn(hs, parse_ops(inner));
+    }
+    let t: Vec<&str> = s.split(' ').collect();
+    let h: usize = t.get(1).and_then(|x| x.parse().ok()).unwrap_or(0);
+    let n: usize = t.get(2).and_then(|x| x.parse().ok()).unwrap_or(0);
+    match t[0] {
+        "try_send" => Op::TrySend(h),
+        "try_recv" => Op::TryRecv(h),
+        "recv" => Op::Recv(h),
+        "try_recv_view" => Op::TryRecvView(h),
+        "recv_view" => Op::RecvView(h),
+        "try_iter" => Op::TryIter(h, n),
+        "iter_all" => Op::IterAll(h),
+        "clone" => Op::Clone(h),
+        "add_stream" => Op::AddStream(h),
+        "drop" => Op::Drop(h),
+        "unsub" => Op::Unsub(h),
+        "into_single" => Op::IntoSingle(h),
+        "into_multi" => Op::IntoMulti(h),
+        "start_send" => Op::StartSend(h),
+        "poll_complete" => Op::PollComplete(h),
+        "poll" => Op::Poll(h),
+        "sink_send" => Op::SinkSend(h),
+        "stream_next" => Op::StreamNext(h),
+        "send_retry" => Op::SendRetry(h, n),
+        other => panic!("unknown op {}", other),
+    }
+}
+
+fn parse_cfg(s: &str) -> QCfg {
+    let kv: HashMap<&str, &str> = s.split(' ').filter_map(|x| x.split_once('=')).collect();
+    let fut = kv.get("kind") == Some(&"fut");
+    let w: Vec<&str> = kv.get("wait").unwrap_or(&"busy").split(':').collect();
+    let a: usize = w.get(1).and_then(|x| x.parse().ok()).unwrap_or(0);
+    let b: usize = w.get(2).and_then(|x| x.parse().ok()).unwrap_or(0);
+    let wait = match w[0] {
+        "busy" => WaitCfg::Busy,
+        "yield" => WaitCfg::Yield(a, b),
+        "block" => WaitCfg::Block(a, b),
+        _ => WaitCfg::Busy,
+    };
+    QCfg {
+        bcast: kv.get("flavour") == Some(&"bcast"),
+        fut,
+        cap: kv.get("cap").and_then(|x| x.parse().ok()).unwrap_or(1),
+        wait,
+        fspins: if fut && w[0] == "fut" && !(a == 50 && b == 50) { Some((a, b)) } else { None },
+    }
+}
+
+pub fn scenario_text(sc: &Scenario) -> String {
+    let mut s = String::new();
+    s.push_str(&format!("family {}\n", sc.family));
+    s.push_str(&format!("cfg {}\n", sc.cfg.text()));
+    s.push_str(&format!(
+        "epilogue {}\n",
+        match sc.epilogue {
+            Epilogue::Probe => "probe",
+            Epilogue::DropSendersFirst => "senders_first",
+            Epilogue::DropReceiversFirst => "receivers_first",
+        }
+    ));
+    for op in &sc.main {
+        s.push_str(&format!("op {}\n", op.text()));
+    }
+    s
+}
+
+pub fn parse_replay(text: &str) -> (Scenario, Vec<usize>, Vec<String>) {
+    let mut sc = Scenario {
+        cfg: QCfg { bcast: true, fut: false, cap: 1, wait: WaitCfg::Busy, fspins: None },
+        main: vec![],
+        epilogue: Epilogue::Probe,
+        family: "replay".into(),
+    };
+    let mut sched = Vec::new();
+    let mut props = Vec::new();
+    for l in text.lines() {
+        let (k, v) = l.split_once(' ').unwrap_or((l, ""));
+        match k {
+            "family" => sc.family = v.to_string(),
+            "cfg" => sc.cfg = parse_cfg(v),
+            "epilogue" => {
+                sc.epilogue = match v {
+                    "probe" => Epilogue::Probe,
+                    "senders_first" => Epilogue::DropSendersFirst,
+                    _ => Epilogue::DropReceiversFirst,
+                }
+            }
+            "op" => sc.main.push(parse_op(v)),
+            "schedule" => sched = v.split(' ').filter_map(|x| x.parse().ok()).collect(),
+            "prop" => props.push(v.to_string()),
+            _ => {}
+        }
+    }
+    (sc, sched, props)
+}
+
+fn jstr(s: &str) -> String {
+    let mut o = String::from("\"");
+    for c in s.chars() {
+        match c {
+            '"' => o.push_str("\\\""),
+            '\\' => o.push_str("\\\\"),
+            '\n' => o.push_str("\\n"),
+            c if (c as u32) < 0x20 => o.push(' '),
+            c => o.push(c),
+        }
+    }
+    o.push('"');
+    o
+}
+
+fn arg<'a>(args: &'a [String], name: &str) -> Option<&'a str> {
+    args.iter().position(|a| a == name).and_then(|i| args.get(i + 1)).map(|s| s.as_str())
+}
+
+fn explore(args: &[String]) {
+    let families: Vec<String> = arg(args, "--families").unwrap_or("ring").split(',').map(|s| s.to_string()).collect();
+    let count: usize = arg(args, "--count").and_then(|s| s.parse().ok()).unwrap_or(50);
+    let seed: u64 = arg(args, "--seed").and_then(|s| s.parse().ok()).unwrap_or(1);
+    let budget: usize = arg(args, "--budget").and_then(|s| s.parse().ok()).unwrap_or(6000);
+    let traces_path = arg(args, "--traces");
+    let json_path = arg(args, "--json");
+    let replay_dir = arg(args, "--replays").unwrap_or("/verif/replays");
+    let tag = arg(args, "--tag").unwrap_or("x");
+    let mut tf = traces_path.map(|p| std::io::BufWriter::new(std::fs::File::create(p).unwrap()));
+    let mut stats: BTreeMap<String, usize> = BTreeMap::new();
+    let mut viols: Vec<(String, String, String)> = Vec::new(); // prop, msg, replay
+    let mut samples: Vec<String> = Vec::new();
+    let mut distinct: std::collections::HashSet<u64> = std::collections::HashSet::new();
+    let mut total_steps = 0usize;
+    let mut total_calls = 0usize;
+    for i in 0..count {
+        let fam = &families[i % families.len()];
+        let mut rng = Rng(seed.wrapping_mul(0x9E37_79B9).wrapping_add(i as u64 * 7919));
+        let sc = gen::gen(fam, &mut rng);
+        let strat = match rng.below(6) {
+            0 | 1 => Strategy::Random,
+            2 => Strategy::Pct { d: 1 },
+            3 => Strategy::Pct { d: 2 },
+            4 => Strategy::Pct { d: 3 },
+            _ => Strategy::Stall { victim: 1 + rng.below(3), at: rng.below(40) },
+        };
+        let sname = match &strat {
+            Strategy::Random => "random".to_string(),
+            Strategy::Pct { d } => format!("pct{}", d),
+            Strategy::Stall { .. } => "stall".to_string(),
+            _ => "replay".to_string(),
+        };
+        let r = run_scenario(&sc, &strat, rng.next(), budget);
+        let vs = monitors::analyze(&sc, &r);
+        total_steps += r.steps;
+        total_calls += r.calls.len();
+        *stats.entry(format!("family:{}", fam)).or_default() += 1;
+        *stats.entry(format!("strategy:{}", sname)).or_default() += 1;
+        *stats.entry(format!("outcome:{}", match &r.outcome { Outcome::Finished => "finished", Outcome::Deadlock(_) => "deadlock", Outcome::Livelock(_) => "livelock", Outcome::Budget => "budget" })).or_default() += 1;
+        *stats.entry(format!("N:{}", monitors::valid_wrap(sc.cfg.cap))).or_default() += 1;
+        *stats.entry(format!("threads:{}", r.nthreads)).or_default() += 1;
+        *stats.entry(format!("flavour:{}", if sc.cfg.bcast { "bcast" } else { "mpmc" })).or_default() += 1;
+        for c in &r.calls {
+            *stats.entry(format!("result:{}:{}", c.op, c.res.split(' ').next().unwrap())).or_default() += 1;
+        }
+        // distinct: hash of the schedule + scenario text
+        let mut hsh = 1469598103934665603u64;
+        for b in scenario_text(&sc).bytes().chain(r.schedule.iter().map(|&x| x as u8)) {
+            hsh ^= b as u64;
+            hsh = hsh.wrapping_mul(1099511628211);
+        }
+        if r.nthreads >= 2 && r.steps >= 20 {
+            distinct.insert(hsh);
+        }
+        if samples.len() < 3 {
+            samples.push(format!("{} | {} | threads={} steps={} calls={} outcome={:?}", sc.cfg.text(), sc.main.iter().map(|o| o.text()).collect::<Vec<_>>().join("; "), r.nthreads, r.steps, r.calls.len(), r.outcome));
+        }
+        let name = format!("{}-{}-{}-{}", tag, fam, seed, i);
+        if let Some(f) = tf.as_mut() {
+            writeln!(f, "=== {}", name).unwrap();
+            f.write_all(trace_text(&r.trace, &r.names).as_bytes()).unwrap();
+        }
+        if !vs.is_empty() {
+            std::fs::create_dir_all(replay_dir).ok();
+            let path = format!("{}/{}.replay", replay_dir, name);
+            let mut t = String::new();
+            for v in &vs {
+                t.push_str(&format!("prop {}\nmsg {}\n", v.prop, v.msg));
+            }
+            t.push_str(&scenario_text(&sc));
+            t.push_str(&format!("schedule {}\n", r.schedule.iter().map(|x| x.to_string()).collect::<Vec<_>>().join(" ")));
+            std::fs::write(&path, t).unwrap();
+            for v in &vs {
+                viols.push((v.prop.to_string(), v.msg.clone(), path.clone()));
+            }
+        }
+    }
+    for (p, m, path) in &viols {
+        println!("MONITOR property={} replay={} :: {}", p, path, m);
+    }
+    if let Some(jp) = json_path {
+        let mut j = String::from("{");
+        j.push_str(&format!("\"runs\":{},\"distinct_nontrivial\":{},\"steps\":{},\"calls\":{},", count, distinct.len(), total_steps, total_calls));
+        j.push_str("\"stats\":{");
+        j.push_str(&stats.iter().map(|(k, v)| format!("{}:{}", jstr(k), v)).collect::<Vec<_>>().join(","));
+        j.push_str("},\"samples\":[");
+        j.push_str(&samples.iter().map(|s| jstr(s)).collect::<Vec<_>>().join(","));
+        j.push_str("],\"violations\":[");
+        j.push_str(&viols.iter().map(|(p, m, r)| format!("{{\"prop\":{},\"msg\":{},\"replay\":{}}}", jstr(p), jstr(m), jstr(r))).collect::<Vec<_>>().join(","));
+        j.push_str("]}");
+        std::fs::write(jp, j).unwrap();
+    }
+    println!("explored runs={} distinct={} steps={} calls={} violations={}", count, distinct.len(), total_steps, total_calls, viols.len());
+}
+
+fn replay(args: &[String]) {
+    let path = &args[2];
+    let text = std::fs::read_to_string(path).unwrap();
+    let (sc, sched, props) = parse_replay(&text);
+    let r = run_scenario(&sc, &Strategy::Replay(sched), 1, 20000);
+    let vs = monitors::analyze(&sc, &r);
+    if let Some(tp) = arg(args, "--traces") {
+        let mut f = std::fs::File::create(tp).unwrap();
+        writeln!(f, "=== replay").unwrap();
+        f.write_all(trace_text(&r.trace, &r.names).as_bytes()).unwrap();
+    }
+    println!("replay outcome={:?} steps={} expected_props={:?}", r.outcome, r.steps, props);
+    for v in &vs {
+        println!("MONITOR property={} :: {}", v.prop, v.msg);
+    }
+    if arg(args, "--show").is_some() {
+        for c in &r.calls {
+            println!("{:?}", c);
+        }
+    }
+}
 
 fn main() {
     let args: Vec<String> = std::env::args().collect();
-    let cmd = args.get(1).map(|s| s.as_str()).unwrap_or("demo");
+    let cmd = args.get(1).map(|s| s.as_str()).unwrap_or("help");
     match cmd {
-        "demo" => {
-            let sc = Scenario {
-                cfg: QCfg { bcast: true, fut: false, cap: 2, wait: WaitCfg::Block(0, 0), fspins: None },
-                main: vec![
-                    Op::Clone(1),
-                    Op::Spawn(vec![1], vec![Op::Recv(0), Op::Recv(0)]),
-                    Op::Spawn(vec![2], vec![Op::Recv(0), Op::TryRecv(0)]),
-                    Op::TrySend(0),
-                    Op::TrySend(0),
-                    Op::TrySend(0),
-                ],
-                epilogue: Epilogue::Probe,
-                family: "demo".into(),
-            };
-            let seed: u64 = args.get(2).and_then(|s| s.parse().ok()).unwrap_or(1);
-            let r = run_scenario(&sc, &Strategy::Random, seed, 5000);
-            print!("{}", trace_text(&r.trace, &r.names));
-            eprintln!("outcome {:?} steps {} threads {} panics {:?}", r.outcome, r.steps, r.nthreads, r.panics);
-            for c in &r.calls {
-                eprintln!("{:?}", c);
-            }
-            eprintln!("viol {:?}", r.reg.lock().unwrap().violations);
-        }
-        _ => {}
+        "explore" => explore(&args),
+        "replay" => replay(&args),
+        _ => println!("usage: mqharness explore|replay ..."),
     }
 }
